@@ -315,7 +315,8 @@ theorem first_fail {α : Type} (p : α → Bool) : ∀ (l : List α), l.all p = 
 
 
 /-- the events Close waits for: steps of Close after its begin, of the partition writers' goroutines, of the broker, and
-of calls already inside WriteMessages.  Not in the set: new callers (`enter`, `begin_`, `empty`), a new Close
+of calls already inside WriteMessages (including a call that passed `enter()` and now identifies itself: `begin_` /
+`empty`).  Not in the set: new callers (`enter`), a new Close
 (`closeBegin`) or its return, timers, closing a queue that is closed already, and the events that need an open writer. -/
 def closing (s : State) : Event → Bool
   | .closeMarked _ => true
@@ -334,6 +335,8 @@ def closing (s : State) : Event → Bool
   | .assign _ _ _ => true
   | .reject _ _ _ => true
   | .ret _ _ => true
+  | .empty => true
+  | .begin_ _ _ => true
   | _ => false
 
 /-- an internal event of a partition writer without an open batch is one of them (its timers have nothing to do) -/
@@ -531,7 +534,7 @@ complete, exit), or of a call already inside WriteMessages (its next balancing s
 no new caller, no context cancellation and no batch timer is needed. -/
 theorem close_progress' (cfg : Cfg) (hmax : 1 ≤ cfg.maxAttempts) (s : State) (hr : Reachable cfg s)
     (hc : s.closed = true) (hn : step cfg s .closeReturn = none) :
-    ∃ e, driven e = true ∧ (s.entered = 0 → closing s e = true) ∧ (step cfg s e).isSome = true := by
+    ∃ e, driven e = true ∧ closing s e = true ∧ (step cfg s e).isSome = true := by
   have hD := di_reachable cfg s hr
   cases hw : s.wlock with
   | call c0 =>
@@ -539,10 +542,10 @@ theorem close_progress' (cfg : Cfg) (hmax : 1 ≤ cfg.maxAttempts) (s : State) (
     rw [hw] at this; cases this
   | closer =>
     obtain ⟨e, h1, h2, h3⟩ := closer_progress cfg hmax s hr hc hw
-    exact ⟨e, h1, fun _ => h2, h3⟩
+    exact ⟨e, h1, h2, h3⟩
   | free =>
     by_cases hent : 0 < s.entered
-    · exact ⟨.empty, rfl, fun h0 => by omega, by simp [step, hent]⟩
+    · exact ⟨.empty, rfl, rfl, by simp [step, hent]⟩
     · have hent0 : s.entered = 0 := by omega
       by_cases hex : s.pwIds.all (fun pw => match s.pws pw with | some P => P.sender == .exited | none => false) = true
       · -- every goroutine is gone: an open call remains
@@ -568,7 +571,7 @@ theorem close_progress' (cfg : Cfg) (hmax : 1 ≤ cfg.maxAttempts) (s : State) (
         | some C =>
           have hph : C.phase ≠ .returned := by simpa [openCall, hCc] using hoc
           obtain ⟨e, h1, h2, h3⟩ := call_progress cfg s hr hc hw hall c C hCc hph
-          exact ⟨e, h1, fun _ => h2, h3⟩
+          exact ⟨e, h1, h2, h3⟩
       · have : ∃ pw ∈ s.pwIds, (match s.pws pw with | some P => P.sender == .exited | none => false) = false := by
           simpa [List.all_eq_true] using hex
         obtain ⟨pw, hmem, hnot⟩ := this
@@ -580,7 +583,7 @@ theorem close_progress' (cfg : Cfg) (hmax : 1 ≤ cfg.maxAttempts) (s : State) (
           have hne : P.sender ≠ .exited := by
             intro h; simp [h] at hnot
           obtain ⟨e, h1, h2, h3⟩ := sender_progress cfg hmax s hr hc hw pw P hPw hne
-          exact ⟨e, h1, fun _ => h2, h3⟩
+          exact ⟨e, h1, h2, h3⟩
 
 theorem close_progress (cfg : Cfg) (hmax : 1 ≤ cfg.maxAttempts) (s : State) (hr : Reachable cfg s)
     (hc : s.closed = true) (hn : step cfg s .closeReturn = none) :
@@ -588,12 +591,11 @@ theorem close_progress (cfg : Cfg) (hmax : 1 ≤ cfg.maxAttempts) (s : State) (h
   obtain ⟨e, h1, -, h3⟩ := close_progress' cfg hmax s hr hc hn
   exact ⟨e, h1, h3⟩
 
-/-- the same with the enabled event taken from the set `closing` the termination measure is about, once no call is
-between `enter()` and its identification -/
+/-- the same with the enabled event taken from the set `closing` the termination measure is about -/
 theorem close_progress_closing (cfg : Cfg) (hmax : 1 ≤ cfg.maxAttempts) (s : State) (hr : Reachable cfg s)
-    (hc : s.closed = true) (he : s.entered = 0) (hn : step cfg s .closeReturn = none) :
+    (hc : s.closed = true) (hn : step cfg s .closeReturn = none) :
     ∃ e, closing s e = true ∧ (step cfg s e).isSome = true := by
   obtain ⟨e, -, h2, h3⟩ := close_progress' cfg hmax s hr hc hn
-  exact ⟨e, h2 he, h3⟩
+  exact ⟨e, h2, h3⟩
 
 end KV.WriterCloseDetail
